@@ -13,17 +13,17 @@ const replicationRel = "pkg/blobstore/replication"
 func init() {
 	register(&Rule{
 		ID: "R11.1", Props: []string{"C11"}, Engine: "flow + noerrdrop",
-		Text: "mirroredBlobAccess.Put writes both replicas: the upload is split by one CloneStream, each half is Put into a different backend field (backendA, backendB) inside a function handed to one errgroup, each function returns its backend's (wrapped) error, and Put returns that group's Wait()",
+		Text:  "mirroredBlobAccess.Put writes both replicas: the upload is split by one CloneStream, each half is Put into a different backend field (backendA, backendB) inside a function handed to one errgroup, each function returns its backend's (wrapped) error, and Put returns that group's Wait()",
 		Floor: 3, MustExist: true, Run: runR111,
 	})
 	register(&Rule{
 		ID: "R11.2", Props: []string{"C11"}, Engine: "guard + flow",
-		Text: "errors are not masked and fail-over is single-shot: the selector closure of getBlobReplicatorSelector returns every non-NOT_FOUND error wrapped (never NOT_FOUND instead, never a replicator), hands out a replicator only on NOT_FOUND and clears the captured replicator before doing so, so that a second NOT_FOUND ends the read with that error; reading from backend A first pairs with the B-to-A replicator and vice versa",
+		Text:  "errors are not masked and fail-over is single-shot: the selector closure of getBlobReplicatorSelector returns every non-NOT_FOUND error wrapped (never NOT_FOUND instead, never a replicator), hands out a replicator only on NOT_FOUND and clears the captured replicator before doing so, so that a second NOT_FOUND ends the read with that error; reading from backend A first pairs with the B-to-A replicator and vice versa",
 		Floor: 4, MustExist: true, Run: runR112,
 	})
 	register(&Rule{
 		ID: "R11.4", Props: []string{"C11"}, Engine: "guard + flow (path automaton)",
-		Text: "mirroredBlobAccess.FindMissing repairs before answering: every success return is dominated by the nil edge of the Wait of the group that ran both ReplicateMultiple calls; the set returned is the intersection component of GetDifferenceAndIntersection of backend A's and backend B's answers; the A-to-B replicator receives the objects only B misses and the B-to-A replicator those only A misses; a replicator's NOT_FOUND is relabelled INTERNAL; both backends' errors are wrapped with the backend name",
+		Text:  "mirroredBlobAccess.FindMissing repairs before answering: every success return is dominated by the nil edge of the Wait of the group that ran both ReplicateMultiple calls; the set returned is the intersection component of GetDifferenceAndIntersection of backend A's and backend B's answers; the A-to-B replicator receives the objects only B misses and the B-to-A replicator those only A misses; a replicator's NOT_FOUND is relabelled INTERNAL; both backends' errors are wrapped with the backend name",
 		Floor: 5, MustExist: true, Run: runR114,
 	})
 }
